@@ -23,6 +23,7 @@ def demo_cmds(wt):
     cps = re.findall(r"cp\s+\S+\s+\S+", h)
     tests = re.findall(r"(?:timeout\s+\d+\s+)?go\s+(?:test|run)\s+[^;&#\n]*", h)
     extra = re.findall(r"(?:(?:bash|sh)\s+)?/\S+\.sh[^;&#\n]*", h)
+    extra = [e for e in extra if "<" not in e]   # prose such as `cli_check.sh <rare-binary> 1` is not a command
     return cps, tests + extra
 
 def run_demo(wt):
